@@ -402,8 +402,19 @@ def rule_uuid(chk, only=None):
             chk.req(fresh, "C02.uuid", "%s:fresh-uuid-per-root" % f.fq, chk.where(f, n.lineno),
                     good="task_uuid = %s evaluated at the construction" % (uu is not None and unparse(uu)),
                     fail="a root action is created with task_uuid %s, which is not a uuid4() evaluated at this construction: two trees can share a uuid" % (uu is not None and unparse(uu)))
+    # start_task always begins a new tree: its Action is built at the empty root level
+    st_ = ctx.func("_action", "startTask")
+    roots = 0
+    for n in iter_own_nodes(st_.node):
+        if isinstance(n, ast.Call) and init in ctx.targets(st_, n) and len(n.args) > 2:
+            lvl = n.args[2]
+            if isinstance(lvl, ast.Call) and ((lvl.keywords and isinstance(lvl.keywords[0].value, ast.List) and not lvl.keywords[0].value.elts)
+                                              or (lvl.args and isinstance(lvl.args[0], ast.List) and not lvl.args[0].elts)):
+                roots += 1
+    chk.req(roots == 1, "C02.uuid", "startTask:root-level-is-empty", chk.where(st_), good="Action(..., TaskLevel(level=[]), ...)",
+            fail="start_task does not build its action at the empty root level: the task's start message is not at position [1] and the parser never completes it")
     if not only:
-        chk.instances("C02.uuid:root constructions", n_sites, 2)
+        chk.instances("C02.uuid:root constructions", n_sites, 1)
     return n_sites
 
 
